@@ -1,6 +1,43 @@
 """C37 — DataFrame reductions and aggregations equal pandas.
 
-DRAFT (being calibrated)
+Monitor: pandas differential.  Every case is ONE description (frame seed, partitioning, operation, target
+columns, keyword options, split_every) from which the same program is run on the real dask.dataframe
+collection (sync scheduler) and on pandas over the concatenated frame; the computed value is compared with the
+pandas value (object kind, labels and their order, dtype, values within rounding tolerance).
+
+Domain (from the statement/quantifier): sum, prod, min, max, count, mean, var, std, sem, any, all, idxmin,
+idxmax, nunique, value_counts (Series), mode, nlargest/nsmallest, describe (rows count/mean/std/min/max only),
+cov/corr, len; Series and DataFrame targets; axis 0/1 where dask has axis=1; skipna, numeric_only, min_count
+(sum/prod), ddof (var/std/sem), split_every in {2, 3, False, None, omitted}; columns int64 / str / float with
+NaN / float / bool / datetime / categorical / nullable Int64 / nullable boolean; partitionings by from_pandas
+(npartitions, chunksize incl. single-row partitions), from_map / from_delayed row slices INCLUDING EMPTY
+partitions, cleared divisions.  pandas raising -> reject.  Options the statement does not name (dropna,
+normalize, sort, min_periods, keep, ...) are left at their defaults.
+
+Comparison discipline
+* Series/DataFrame results: vf.gen.frames.compare, ordered, rtol 1e-9 (pandas.testing atol 1e-8), dtype facet
+  on; scalars: |r-e| <= 1e-9*|e| + 1e-9*max(1,|data|max); NaN/NA/NaT are all "missing" for a scalar.
+* value_counts: multiset of (value, count) + index name + "counts non-increasing" (ties unspecified).
+* mode / nlargest / nsmallest / idxmin / idxmax: exact, ordered (sorted modes; keep='first' is documented;
+  first occurrence for idx*).
+* describe: only the rows count/mean/std/min/max that pandas produces are compared; a wanted row that is absent
+  from the dask result is the symptom `rows`.
+* dtype facet is restricted to non-empty frames (pandas leaves the dtype of an empty reduction unspecified).
+
+Labels: `<op family>:<causal features>:<symptom>`.  The features are found by ablation: the failing description
+is re-run with one feature removed at a time (single column, nullable column cast to float64, series<->frame,
+skipna, numeric_only, min_count, ddof, split_every, single partition, empty partitions dropped); a feature is in
+the label only if removing it makes the same symptom disappear.  So one mechanism gets one label regardless of
+which other columns/options/partition counts happened to be in the random case.
+
+Calibration (false alarms corrected)
+* DataFrame.value_counts does not exist in dask and the statement's value_counts is the Series one: Series only.
+* unordered categorical under order based reductions (min/max/idxmin/idxmax): pandas refuses min/max but
+  happens to answer idxmin/idxmax through the codes; the reduction is not defined there -> not generated.
+* missing scalars: pandas answers NA for nullable columns where dask answers NaN; both are "missing" (same rule
+  as frames.compare for scalars) -> equal.
+* frames.compare files every pandas message containing "[index]:" under `index`; re-classified as `values`.
+* options outside the statement's list (min_periods, dropna, normalize, sort/ascending) are not generated.
 """
 from __future__ import annotations
 
@@ -9,26 +46,45 @@ import random
 import warnings
 
 PROP = "C37"
-RULE = "draft"
+RULE = ("cases = (frame seed/rows/index kind, partitioning description, operation, target series|frame + columns, "
+        "options skipna/numeric_only/axis/min_count/ddof, split_every). Complete part: a fixed 6-row frame x all its "
+        "partitionings (see EXHAUSTIVE_SPACE) x every operation x skipna x three targets; random part: 0-30 rows, 7 index "
+        "kinds, 9 column dtypes, from_pandas/from_map/from_delayed partitionings with empty and single-row partitions. "
+        "non-trivial = at least 2 partitions and 2 rows; distinct = distinct description.")
 ASSUMPTIONS = ["pandas 3.0.5 on the concatenated frame defines the expected value", "sync scheduler",
-               "python-backed str dtype (pyarrow import stub)"]
-BUDGET = {"quick": 60, "thorough": 500}
+               "python-backed str dtype (pyarrow import stub); Arrow strings are not exercised"]
+BUDGET = {"quick": 90, "thorough": 560}
 FLOORS = {"quick": {"evaluations": 10, "distinct_nontrivial": 5}, "thorough": {"evaluations": 10, "distinct_nontrivial": 5}}
-EXHAUSTIVE_SPACE = None
-CLAIM = "draft"
-LEVEL_NOTE = "pandas is the reference"
-TECHNIQUE = "runtime monitoring: pandas differential oracle"
-CASE_TIMEOUT = 60
+EXHAUSTIVE_SPACE = {
+    "quick": ("fixed 6-row frame: all 32 compositions into non-empty consecutive partitions + all weak compositions "
+              "(empty partitions anywhere) into <=3 partitions (52 partitionings) x 22 operations x skipna in {True, False} "
+              "where it applies x targets {Series float-with-NaN, Series nullable Int64, DataFrame int/float-NaN/float/bool}, "
+              "split_every=2, from_map partitions"),
+    "thorough": ("fixed 6-row frame: all 32 compositions + all weak compositions into <=4 partitions (126 partitionings) "
+                 "x 22 operations x skipna x 3 targets, split_every=2, from_map partitions"),
+}
+CLAIM = ("Every generated reduction/aggregation was computed by the real dask.dataframe and compared with pandas on the "
+         "concatenated frame (kind, labels, dtype, values within rounding tolerance; documented tie rules for "
+         "value_counts/mode/nlargest). Held = no mismatch and no dask exception inside the domain on the executions "
+         "observed, apart from the listed known findings.")
+LEVEL_NOTE = "pandas is the reference; domain limited to the operations and options the statement names"
+TECHNIQUE = "runtime monitoring: pandas differential oracle over a complete small partitioning space + random frames"
+CASE_TIMEOUT = 120
 PENDING = {}
 
 SKIPNA_OPS = ("sum", "prod", "min", "max", "mean", "var", "std", "sem", "any", "all", "idxmin", "idxmax")
 OTHER_OPS = ("count", "nunique", "value_counts", "mode", "nlargest", "nsmallest", "describe", "cov", "corr", "len")
 AXIS1_OPS = ("sum", "prod", "min", "max", "mean", "var", "std", "sem", "any", "all", "idxmin", "idxmax", "count", "nunique")
+NUMONLY_OPS = ("sum", "prod", "min", "max", "mean", "var", "std", "sem", "idxmin", "idxmax", "count", "mode", "cov", "corr")
+ORDER_OPS = ("min", "max", "idxmin", "idxmax", "nlargest", "nsmallest")
 DESCRIBE_ROWS = ("count", "mean", "std", "min", "max")
+FAMILY = {"min": "min/max", "max": "min/max", "idxmin": "idxmin/idxmax", "idxmax": "idxmin/idxmax", "sum": "sum/prod",
+          "prod": "sum/prod", "any": "any/all", "all": "any/all", "cov": "cov/corr", "corr": "cov/corr",
+          "nlargest": "nlargest/nsmallest", "nsmallest": "nlargest/nsmallest"}
 
-# series column pools (pandas decides what is defined: a TypeError on the pandas side is a reject)
+# series column pools (pandas decides what is defined: an exception on the pandas side is a reject)
 POOL = {
-    "sum": "acdenmacdnb", "prod": "acdenm", "min": "abcdetnmk", "max": "abcdetnmk", "mean": "acdetnm",
+    "sum": "acdenmacdnb", "prod": "acdenm", "min": "abcdetnm", "max": "abcdetnm", "mean": "acdetnm",
     "var": "acdenm", "std": "acdenmt", "sem": "acdenm", "any": "acdenm", "all": "acdenm",
     "idxmin": "acdetnm", "idxmax": "acdetnm", "count": "abcdetknm", "nunique": "abcdetknm",
     "value_counts": "abcdetknm", "mode": "abcdetknm", "nlargest": "acdnt", "nsmallest": "acdnt",
@@ -37,8 +93,9 @@ POOL = {
 NUMERIC = "acdn"
 NUMBOOL = "acdnem"
 WIDE = "abcdetknm"
-
-FIXED_CUTS = None
+CLASS = {"a": None, "c": None, "d": None, "e": None, "n": "nullable", "m": "nullable", "t": "datetime",
+         "k": "categorical", "b": "str"}
+CANON = "daecnmtkb"      # order in which single columns are tried by the label ablation
 
 
 def _fixed_frame():
@@ -61,18 +118,13 @@ def _fixed_frame():
     return df
 
 
-def _weak_compositions(total, k):
-    """all cut lists (k-1 non-decreasing cut points in 0..total) = weak compositions into k parts"""
-    return [list(c) for c in itertools.combinations_with_replacement(range(total + 1), k - 1)]
-
-
 def _fixed_partitionings(tier):
     seen, out = set(), []
     cands = []
     for r in range(0, 6):          # all 32 compositions into non-empty parts
         cands.extend(list(c) for c in itertools.combinations(range(1, 6), r))
-    for k in range(1, (4 if tier == "quick" else 5)):   # weak compositions: empty partitions anywhere
-        cands.extend(_weak_compositions(6, k))
+    for k in range(1, (4 if tier == "quick" else 5)):   # weak compositions into k parts: empty partitions anywhere
+        cands.extend(list(c) for c in itertools.combinations_with_replacement(range(7), k - 1))
     for c in cands:
         if tuple(c) not in seen:
             seen.add(tuple(c))
@@ -80,32 +132,35 @@ def _fixed_partitionings(tier):
     return out
 
 
+FIXED_TARGETS = (("series", "c"), ("series", "n"), ("frame", "acde"))
+
+
 def cases(tier, seed):
     rng = random.Random(seed * 7873 + 37)
     # ---- complete sub-space -------------------------------------------------------------
     for cuts in _fixed_partitionings(tier):
         part = {"how": "slices", "cuts": cuts}
-        for target in ("series", "frame"):
+        for target, cols in FIXED_TARGETS:
             for op in SKIPNA_OPS:
                 for skipna in (True, False):
-                    yield _fixed_case(op, target, part, {"skipna": skipna})
+                    yield _fixed_case(op, target, cols, part, {"skipna": skipna})
             for op in OTHER_OPS:
                 if not (op == "value_counts" and target == "frame"):
-                    yield _fixed_case(op, target, part, {})
+                    yield _fixed_case(op, target, cols, part, {})
     # ---- random -----------------------------------------------------------------------
     k = 5000 if tier == "quick" else 90000
     for _ in range(k):
         yield _rand_case(rng)
 
 
-def _fixed_case(op, target, part, kw):
+def _fixed_case(op, target, cols, part, kw):
     c = {"space": "exhaustive", "fixed": True, "op": op, "target": target, "part": part, "kw": dict(kw), "se": 2}
     if target == "series":
-        c["col"] = "c"
+        c["col"] = cols
         if op in ("cov", "corr"):
             c["col2"] = "d"
     else:
-        c["cols"] = list("acdn")
+        c["cols"] = list(cols)
         if op in ("nlargest", "nsmallest"):
             c["kw"]["columns"] = "c"
     if op in ("nlargest", "nsmallest"):
@@ -134,6 +189,7 @@ def _rand_case(rng):
     kw = case["kw"]
     target = "series" if (rng.random() < 0.5 or op == "value_counts") else "frame"
     case["target"] = target
+    wide = WIDE.replace("k", "") if op in ORDER_OPS else WIDE
     if target == "series":
         case["col"] = rng.choice(POOL[op])
         if op in ("cov", "corr"):
@@ -144,43 +200,27 @@ def _rand_case(rng):
             pool = NUMBOOL if op not in ("describe", "nlargest", "nsmallest") else NUMERIC
             cols = rng.sample(pool, rng.randint(1, min(4, len(pool))))
         elif u < 0.8:
-            cols = rng.sample(WIDE, rng.randint(2, len(WIDE)))
-            if op in SKIPNA_OPS + ("count", "mode", "cov", "corr"):
+            cols = rng.sample(wide, rng.randint(2, len(wide)))
+            if op in NUMONLY_OPS:
                 kw["numeric_only"] = True
         else:
-            cols = rng.sample(WIDE, rng.randint(1, 4))
+            cols = rng.sample(wide, rng.randint(1, 4))
         case["cols"] = sorted(cols, key=WIDE.index) if rng.random() < 0.7 else cols
         if op in AXIS1_OPS and rng.random() < 0.3:
             kw["axis"] = 1
-        if op in SKIPNA_OPS + ("count", "mode", "cov", "corr") and "numeric_only" not in kw and rng.random() < 0.3:
-            if op not in ("any", "all"):
-                kw["numeric_only"] = rng.random() < 0.5
+        if op in NUMONLY_OPS and "numeric_only" not in kw and rng.random() < 0.3:
+            kw["numeric_only"] = rng.random() < 0.5
     if op in SKIPNA_OPS and rng.random() < 0.6:
         kw["skipna"] = rng.random() < 0.55
     if op in ("sum", "prod") and rng.random() < 0.35:
         kw["min_count"] = rng.choice((0, 1, 2, 5))
     if op in ("var", "std", "sem") and rng.random() < 0.4:
         kw["ddof"] = rng.choice((0, 1, 2))
-    if op in ("nunique", "mode") and rng.random() < 0.4:
-        kw["dropna"] = rng.random() < 0.5
-    if op == "value_counts":
-        if rng.random() < 0.4:
-            kw["sort"] = rng.random() < 0.6
-        if rng.random() < 0.25:
-            kw["ascending"] = True
-        if rng.random() < 0.3:
-            kw["dropna"] = False
-        if rng.random() < 0.25:
-            kw["normalize"] = True
     if op in ("nlargest", "nsmallest"):
         kw["n"] = rng.choice((1, 2, 3, 5, 40))
         if target == "frame":
             cs = [c for c in case["cols"] if c in "acdnt"] or case["cols"]
             kw["columns"] = rng.choice(cs) if rng.random() < 0.7 else rng.sample(cs, min(2, len(cs)))
-    if op in ("cov", "corr") and rng.random() < 0.3:
-        kw["min_periods"] = rng.choice((2, 3, 5))
-    if op in ("count", "len", "describe") and target == "series":
-        pass
     return case
 
 
@@ -200,8 +240,12 @@ def _frame(case):
     from ..gen import frames as F
 
     if case.get("fixed"):
-        return _fixed_frame()
-    return F.rand_frame(case["seed"], nrows=case["nrows"], index=case["index"], cols="wide")
+        pdf = _fixed_frame()
+    else:
+        pdf = F.rand_frame(case["seed"], nrows=case["nrows"], index=case["index"], cols="wide")
+    for col, dt in (case.get("cast") or {}).items():     # only used by the label ablation
+        pdf[col] = pdf[col].astype(dt)
+    return pdf
 
 
 def _select(obj, case):
@@ -224,18 +268,34 @@ def _program(obj, base, case, dask_side):
         r = getattr(obj, op)(**kw)
     if dask_side and hasattr(r, "compute"):
         r = r.compute(scheduler="sync")
-    if op == "describe":
-        r = r.loc[[x for x in DESCRIBE_ROWS if x in r.index]]
     return r
 
 
+class _Outcome:
+    __slots__ = ("status", "symptom", "msg", "facts", "result", "expected", "exc")
+
+    def __init__(self, status, symptom=None, msg="", facts=None, result=None, expected=None, exc=None):
+        self.status, self.symptom, self.msg, self.facts = status, symptom, msg, facts
+        self.result, self.expected, self.exc = result, expected, exc
+
+
+def _exc_symptom(ex):
+    from ..core.ctx import exc_label
+
+    lab = exc_label(ex)
+    # Reduction.combine / Reduction.aggregate are the same wrapper at different tree levels
+    for fn in (":combine", ":aggregate"):
+        if lab.endswith("_reductions.py" + fn):
+            lab = lab[: -len(fn)] + ":combine|aggregate"
+    return lab
+
+
 def _evaluate(case):
-    """-> (status, payload): ("reject", why) | ("unsupported", why) | ("exc", exception) |
-    ("ok", (mismatch-or-None, facts))"""
+    """status: reject | unsupported | envlimited | ok (symptom None) | bad (symptom = mismatch kind or exception label)"""
     import dask
     import numpy as np
-    import pandas as pd
 
+    from ..core.ctx import through_shim
     from ..gen import frames as F
 
     pdf = _frame(case)
@@ -245,7 +305,7 @@ def _evaluate(case):
             with np.errstate(all="ignore"):
                 expected = _program(_select(pdf, case), pdf, case, False)
         except Exception as ex:  # noqa: BLE001 - the reference refuses
-            return "reject", "%s: %s" % (type(ex).__name__, str(ex)[:80])
+            return _Outcome("reject", msg="%s: %s" % (type(ex).__name__, str(ex)[:60]))
         ddf = F.partition(pdf, case["part"])
         parts = dask.compute(*ddf.to_delayed(), scheduler="sync")
         facts = _facts(case, pdf, parts)
@@ -253,14 +313,18 @@ def _evaluate(case):
             with np.errstate(all="ignore"):
                 result = _program(_select(ddf, case), ddf, case, True)
         except NotImplementedError as ex:
-            return "unsupported", str(ex)[:80]
+            return _Outcome("unsupported", msg=str(ex)[:80], facts=facts)
         except Exception as ex:  # noqa: BLE001
-            return "exc", (ex, facts)
+            if through_shim(ex):
+                return _Outcome("envlimited", msg="%s: %s" % (type(ex).__name__, ex), facts=facts)
+            return _Outcome("bad", _exc_symptom(ex), "%s: %s" % (type(ex).__name__, str(ex)[:300]), facts, None, expected, ex)
         try:
             mm = _compare(case, result, expected, pdf, facts)
         except Exception as ex:  # noqa: BLE001 - comparison must never escape
             mm = ("compare-error", "%s: %s" % (type(ex).__name__, ex))
-    return "ok", (mm, facts, result, expected)
+    if mm:
+        return _Outcome("bad", mm[0], mm[1], facts, result, expected)
+    return _Outcome("ok", None, "", facts, result, expected)
 
 
 def _used_columns(case):
@@ -278,9 +342,10 @@ def _facts(case, pdf, parts):
             for c in cols:
                 if p[c].isna().all() and not pdf[c].isna().all():
                     allna = True
-    return {"n": len(pdf), "nparts": len(parts), "lens": lens, "empty_part": len(pdf) > 0 and 0 in lens,
+    se = case.get("se")
+    return {"min_valid": int(min([pdf[c].notna().sum() for c in cols] or [0])), "n": len(pdf), "nparts": len(parts), "lens": lens, "empty_part": len(pdf) > 0 and 0 in lens,
             "allna_part": allna, "single_row_part": 1 in lens,
-            "has_na": bool(len(pdf) and pdf[cols].isna().any().any())}
+            "tree": isinstance(se, int) and not isinstance(se, bool) and len(parts) > se}
 
 
 def _scale(pdf, case):
@@ -288,14 +353,12 @@ def _scale(pdf, case):
 
     m = 1.0
     for c in _used_columns(case):
-        if c in "acdn" and len(pdf):
-            v = np.nanmax(np.abs(pdf[c].astype("float64").to_numpy(na_value=np.nan))) if pdf[c].notna().any() else 0.0
-            m = max(m, float(v))
+        if c in "acdn" and len(pdf) and pdf[c].notna().any():
+            m = max(m, float(np.nanmax(np.abs(pdf[c].astype("float64").to_numpy(na_value=np.nan)))))
     return m
 
 
 def _compare(case, r, e, pdf, facts):
-    import numpy as np
     import pandas as pd
 
     from ..gen import frames as F
@@ -306,14 +369,79 @@ def _compare(case, r, e, pdf, facts):
         return None if (isinstance(r, int) and r == e) else ("values", "len %r vs %r" % (r, e))
     if op == "value_counts":
         return _cmp_value_counts(case, r, e, check_dtype)
+    if op == "describe":
+        if not isinstance(r, type(e)):
+            return ("kind", "got %s, expected %s" % (type(r).__name__, type(e).__name__))
+        rows = [x for x in DESCRIBE_ROWS if x in e.index]
+        missing = [x for x in rows if x not in r.index]
+        if missing:
+            return ("rows", "describe result lacks row(s) %s (has %s)" % (missing, list(r.index)))
+        r, e = r.loc[rows], e.loc[rows]
     if isinstance(e, (pd.Series, pd.DataFrame)):
-        return _reclass(F.compare(r, e, ordered=True, rtol=1e-9, check_dtype=check_dtype))
+        return _cmp_pandas(r, e, True, check_dtype)
     return _cmp_scalar(r, e, _scale(pdf, case), check_dtype)
 
 
+def _norm_dtype(dt):
+    s = str(dt)
+    return "strlike" if s in ("object", "str", "string", "string[python]") else s
+
+
+def _plain(x):
+    """Values facet only: every missing marker (None/NaN/NA/NaT) of an object or nullable column becomes NaN and
+    Timedelta elements become float microseconds (they are computed through floats: rounding tolerance applies)."""
+    import numpy as np
+    import pandas as pd
+
+    def one(s):
+        if s.dtype.kind == "m":
+            out = s.astype("int64").astype("float64") / 1e3
+            out[s.isna()] = np.nan
+            return out
+        if s.dtype == object or isinstance(s.dtype, (pd.core.arrays.masked.BaseMaskedDtype,)):
+            vals = [np.nan if (v is None or v is pd.NA or v is pd.NaT or (isinstance(v, float) and v != v))
+                    else (v.value / 1e3 if isinstance(v, pd.Timedelta) else v) for v in s.astype(object)]
+            out = pd.Series(vals, index=s.index, name=s.name, dtype=object)
+            try:
+                return out.astype("float64") if all(isinstance(v, (int, float, np.integer, np.floating)) and
+                                                    not isinstance(v, (bool, np.bool_)) for v in vals) else out
+            except (TypeError, ValueError):
+                return out
+        return s
+
+    if isinstance(x, pd.Series):
+        return one(x)
+    if isinstance(x, pd.DataFrame) and len(x.columns):
+        out = pd.concat([one(x.iloc[:, i]) for i in range(x.shape[1])], axis=1)
+        out.columns = x.columns
+        return out
+    return x
+
+
+def _cmp_pandas(r, e, ordered, check_dtype):
+    """values first (missing markers unified), then the dtype facet: symptom `dtype` means 'values equal, dtype not'"""
+    import pandas as pd
+
+    from ..gen import frames as F
+
+    if type(r) is not type(e):
+        return ("kind", "got %s, expected %s" % (type(r).__name__, type(e).__name__))
+    mm = _reclass(F.compare(_plain(r), _plain(e), ordered=ordered, rtol=1e-9, check_dtype=False))
+    if mm or not check_dtype:
+        return mm
+    if isinstance(e, pd.Series):
+        if _norm_dtype(r.dtype) != _norm_dtype(e.dtype):
+            return ("dtype", "dtype %s vs expected %s" % (r.dtype, e.dtype))
+    else:
+        for c in range(len(e.columns)):
+            if _norm_dtype(r.dtypes.iloc[c]) != _norm_dtype(e.dtypes.iloc[c]):
+                return ("dtype", "column %r dtype %s vs expected %s" % (e.columns[c], r.dtypes.iloc[c], e.dtypes.iloc[c]))
+    return None
+
+
 def _reclass(mm):
-    """frames.compare classifies by words in the pandas message; '[index]:' in a values message is not an index
-    mismatch."""
+    """frames.compare classifies by words in the pandas message; '[index]:' inside a values message is not an
+    index mismatch."""
     if not mm:
         return mm
     kind, msg = mm
@@ -350,6 +478,9 @@ def _cmp_scalar(r, e, scale, check_dtype):
     if isinstance(r, (pd.Series, pd.DataFrame, pd.Index, np.ndarray)) and getattr(r, "ndim", 1) > 0:
         return ("kind", "got %s, expected scalar %r" % (type(r).__name__, e))
     rk, ek = _skind(r), _skind(e)
+    if isinstance(r, pd.Timedelta) and isinstance(e, pd.Timedelta) and not (pd.isna(r) or pd.isna(e)):
+        # computed through float64: rounding tolerance in the unit of the result
+        return None if abs(r.value - e.value) <= 1e-9 * abs(e.value) + 2000 else ("values", "scalar %r vs expected %r" % (r, e))
     try:
         rna, ena = bool(pd.isna(r)), bool(pd.isna(e))
     except (TypeError, ValueError):
@@ -385,35 +516,197 @@ def _cmp_value_counts(case, r, e, check_dtype):
 
     if not isinstance(r, pd.Series):
         return ("kind", "got %s, expected Series" % type(r).__name__)
-    mm = _reclass(F.compare(r, e, ordered=False, rtol=1e-9, check_dtype=check_dtype))
+    mm = _cmp_pandas(r, e, False, check_dtype)
     if mm:
         return mm
     if r.index.name != e.index.name:
         return ("name", "index name %r vs expected %r" % (r.index.name, e.index.name))
-    if case["kw"].get("sort", True) and len(r) > 1:
+    if len(r) > 1:      # pandas default sort=True: sorted by count, descending (ties unspecified)
         v = r.to_numpy()
-        asc = case["kw"].get("ascending", False)
-        ok = all(v[i] <= v[i + 1] for i in range(len(v) - 1)) if asc else all(v[i] >= v[i + 1] for i in range(len(v) - 1))
-        if not ok:
-            return ("order", "counts not %s: %s" % ("non-decreasing" if asc else "non-increasing", list(v)[:12]))
+        if not all(v[i] >= v[i + 1] for i in range(len(v) - 1)):
+            return ("order", "counts not non-increasing: %s" % ([int(x) for x in v][:12],))
     return None
 
 
 # ------------------------------------------------------------------------------------------
-def _label(case, facts, symptom):
+# label = op family : causal features (found by ablation) : symptom
+
+def _variant(case, **changes):
+    v = {k: (dict(x) if isinstance(x, dict) else (list(x) if isinstance(x, list) else x)) for k, x in case.items()}
+    kw = v["kw"]
+    for k, x in changes.items():
+        if k.startswith("kw_"):
+            if x is _DROP:
+                kw.pop(k[3:], None)
+            else:
+                kw[k[3:]] = x
+        elif x is _DROP:
+            v.pop(k, None)
+        else:
+            v[k] = x
+    return v
+
+
+_DROP = object()
+
+
+def _repro(v, symptom):
+    try:
+        o = _evaluate(v)
+    except Exception:  # noqa: BLE001 - a variant the harness cannot build is "no repro"
+        return False
+    return o.status == "bad" and o.symptom == symptom
+
+
+def _single(case, col):
+    ch = {}
+    if case["target"] == "series":
+        ch["col"] = col
+    else:
+        ch["cols"] = [col]
+        if "columns" in case["kw"]:
+            ch["kw_columns"] = col
+    return _variant(case, **ch)
+
+
+_MEMO = {}
+
+
+def _label(case, out):
+    """Narrow mechanism label.  Memoised on the static shape of the case (not on data)."""
+    f = out.facts
+    key = (case["op"], case["target"], tuple(sorted(set(_used_columns(case)))), tuple(sorted(case["kw"].items(), key=str)),
+           repr(case.get("se", "omit")), out.symptom, f["n"] == 0, f["empty_part"], f["allna_part"], f["nparts"] > 1, f["tree"],
+           case["part"]["how"], bool(case["part"].get("clear")))
+    key = repr(key)
+    if key not in _MEMO:
+        _MEMO[key] = _attribute(case, out)
+    return _MEMO[key]
+
+
+def _min_cols(cur, s):
+    """greedy column minimisation of a frame target keeping the symptom; special dtypes are dropped first"""
+    cols = list(cur["cols"])
+    ref = cur["kw"].get("columns")
+    ref = [ref] if isinstance(ref, str) else list(ref or [])
+    for c in sorted(cols, key=CANON.index, reverse=True):
+        if len(cols) == 1:
+            break
+        if c in ref:
+            continue
+        trial = [x for x in cols if x != c]
+        if _repro(_variant(cur, cols=trial), s):
+            cols = trial
+    return cols
+
+
+def _attribute(case, out):
+    s = out.symptom
     op = case["op"]
-    feats = [case["target"]]
-    if facts["n"] == 0:
-        feats.append("empty-frame")
-    if case["kw"].get("axis") == 1:
-        feats.append("axis=1")
-    if case["kw"].get("skipna") is False:
+    fam = FAMILY.get(op, op)
+    if op == "value_counts" and s == "order":
+        return "value_counts:sort-omitted:order"     # static predicate: the default call; data decides whether it shows
+    feats = []
+    cur = case
+    multi = op in ("cov", "corr") or case["kw"].get("axis") == 1
+    # -- op family: std/sem are var + post-processing
+    if op in ("std", "sem") and _repro(_variant(cur, op="var"), s):
+        fam = "var"
+        cur = _variant(cur, op="var")
+    # -- columns / dtype class
+    classes = set()
+    if cur["target"] == "frame":
+        cols = list(cur["cols"])
+        if cols != sorted(cols) and not _repro(_variant(cur, cols=sorted(cols)), s):
+            feats.append("unsorted-columns")
+            cols = None
+        else:
+            cols = _min_cols(cur, s)
+            cur = _variant(cur, cols=cols)
+        if cols is not None:
+            nullable = {c: "float64" for c in cols if CLASS[c] == "nullable"}
+            if nullable and _repro(_variant(cur, cast=nullable), s):
+                cur = _variant(cur, cast=nullable)
+                nullable = {}
+            classes = {CLASS[c] for c in cols if CLASS[c] and (CLASS[c] != "nullable" or c in nullable)}
+            if len(cols) > 1 and not multi:
+                feats.append("multi-column")
+            if len(cols) == 1 and not multi:
+                col = cols[0]
+                if classes:     # substitute a plain column: a generic mechanism is not a dtype mechanism
+                    for sub in "dcae":
+                        v = _single(cur, sub)
+                        if _repro(v, s):
+                            cur, col, classes = v, sub, set()
+                            break
+                sv = _variant(cur, target="series", col=col, cols=_DROP, kw_numeric_only=_DROP, kw_columns=_DROP, kw_axis=_DROP)
+                if _repro(sv, s):
+                    cur = sv
+                else:
+                    feats.append("frame")
+            elif multi:
+                feats.append("axis=1" if case["kw"].get("axis") == 1 else "frame")
+    else:
+        used = _used_columns(cur)
+        nullable = {c: "float64" for c in used if CLASS[c] == "nullable"}
+        if nullable and _repro(_variant(cur, cast=nullable), s):
+            cur = _variant(cur, cast=nullable)
+            nullable = {}
+        classes = {CLASS[c] for c in used if CLASS[c] and (CLASS[c] != "nullable" or c in nullable)}
+        if multi:
+            feats.append("series")
+        else:
+            col = used[0]
+            if classes:
+                for sub in "dcae":
+                    v = _single(cur, sub)
+                    if _repro(v, s):
+                        cur, col, classes = v, sub, set()
+                        break
+            if op != "value_counts":
+                fv = _variant(cur, target="frame", cols=[col], col=_DROP)
+                if op in ("nlargest", "nsmallest"):
+                    fv["kw"]["columns"] = col
+                if not _repro(fv, s):
+                    feats.append("series")
+    if classes:
+        feats.append("+".join(sorted(classes)) + "-column")
+    if out.facts["n"] == 0:
+        v = _variant(cur, nrows=6, part={"how": "npartitions", "n": 1})
+        if not cur.get("fixed") and _repro(v, s):
+            cur = v
+        else:
+            feats.append("empty-frame")
+    # -- options
+    kw = cur["kw"]
+    if kw.get("skipna") is False and not _repro(_variant(cur, kw_skipna=_DROP), s):
         feats.append("skipna=False")
-    if facts["empty_part"]:
-        feats.append("empty-partition")
-    if facts["allna_part"]:
-        feats.append("all-NA-partition")
-    return "%s:%s:%s" % (op, "&".join(feats), symptom)
+    if kw.get("numeric_only") is True and not _repro(_variant(cur, kw_numeric_only=_DROP), s):
+        feats.append("numeric_only=True")
+    if kw.get("min_count") and not _repro(_variant(cur, kw_min_count=_DROP), s):
+        feats.append("min_count>0")
+    oc = _evaluate(cur)
+    facts = oc.facts or out.facts
+    if kw.get("ddof", 1) != 1 and not _repro(_variant(cur, kw_ddof=_DROP), s):
+        feats.append("ddof>=count" if facts["min_valid"] <= kw["ddof"] else "ddof!=1")
+    if "se" in cur and cur["se"] is not False and not _repro(_variant(cur, se=False), s):
+        feats.append("split_every-tree")
+    # -- partitioning
+    if facts["n"] > 0:
+        part = cur["part"]
+        one = {"how": part["how"], "cuts": []} if part["how"] in ("slices", "delayed") else \
+            {"how": "npartitions", "n": 1, "clear": bool(part.get("clear"))}
+        if facts["nparts"] > 1 and not _repro(_variant(cur, part=one), s):
+            explained = False
+            if facts["empty_part"]:
+                n = facts["n"]
+                cuts = sorted({min(max(0, c), n) for c in part.get("cuts", [])} - {0, n})
+                if not _repro(_variant(cur, part={"how": part["how"], "cuts": cuts}), s):
+                    feats.append("empty-partition")
+                    explained = True
+            if not explained:
+                feats.append("all-NA-partition" if facts["allna_part"] else "multi-partition")
+    return "%s:%s:%s" % (fam, "&".join(feats) or "any", s)
 
 
 def run_case(case, ctx):
@@ -423,29 +716,38 @@ def run_case(case, ctx):
     import dask
 
     dask.config.set(scheduler="sync")
-    status, payload = _evaluate(case)
-    ctx.op(case["op"] + ":" + case["target"])
-    if status == "reject":
-        ctx.reject(payload)
+    out = _evaluate(case)
+    op = case["op"]
+    ctx.op("%s:%s" % (op, case["target"]))
+    if out.status == "reject":
+        ctx.reject(op + ": " + out.msg)
         return
-    if status == "unsupported":
-        ctx.unsupported(payload)
+    if out.status == "unsupported":
+        ctx.unsupported(op + ": " + out.msg)
         return
-    if status == "exc":
-        ex, facts = payload
-        from ..core.ctx import exc_label, through_shim
-
-        if through_shim(ex):
-            ctx.envlimited(str(ex))
-            return
-        ctx.violation(_label(case, facts, exc_label(ex)), "%s: %s" % (type(ex).__name__, str(ex)[:300]), facts=facts)
+    if out.status == "envlimited":
+        ctx.envlimited(out.msg)
         return
-    mm, facts, result, expected = payload
+    facts = out.facts
     ctx.count("compared")
     ctx.nontrivial = facts["nparts"] >= 2 and facts["n"] >= 2
-    for k in ("empty_part", "allna_part", "single_row_part"):
+    for k in ("empty_part", "allna_part", "single_row_part", "tree"):
         if facts[k]:
             ctx.count(k)
-    if mm:
-        ctx.violation(_label(case, facts, mm[0]), mm[1], facts=facts, result=repr(result)[:300], expected=repr(expected)[:300])
-    ctx.sample = {"op": case["op"], "lens": facts["lens"], "expected": repr(expected)[:120]}
+    kw = case["kw"]
+    if kw.get("axis") == 1:
+        ctx.count("axis1")
+    if kw.get("skipna") is False:
+        ctx.count("skipna_false")
+    if facts["n"] > 0:
+        ctx.count("dtype_facet_checked")
+    ctx.distinct("op_options", (op, case["target"], sorted(kw.items(), key=str), repr(case.get("se", "omit"))))
+    ctx.distinct("partition_shapes", facts["lens"])
+    if out.status == "bad":
+        detail = dict(facts=facts, result=repr(out.result)[:300], expected=repr(out.expected)[:300])
+        if out.exc is not None:
+            import traceback
+
+            detail["traceback"] = "".join(traceback.format_exception(type(out.exc), out.exc, out.exc.__traceback__))[-2500:]
+        ctx.violation(_label(case, out), out.msg, **detail)
+    ctx.sample = {"op": op, "kw": kw, "lens": facts["lens"], "expected": repr(out.expected)[:120]}
